@@ -139,7 +139,12 @@ func run(c *fw.Ctx) {
 				c.Eval()
 				c.Distinct(fmt.Sprintf("%s|%d|base", tn, codec))
 				if msg := judge(t, recs, base, true); msg != "" {
-					c.Violate(tn+"|base|"+classify(msg), msg, "unsupported", ucase{tn, refpq.RecsToJSON(t.Schema(), recs), sizes, codec, 0, 0, nil})
+					// not a C18 matter (that is C04's): but with the controls
+					// rejected, "every unsupported file is refused" is vacuous
+					c.Count("controls_not_accepted", 1)
+					c.Note("control: the valid base file %s codec %d is not read correctly (%s); C18's verdicts on this target are vacuous - see C04", tn, codec, classify(msg))
+				} else {
+					c.Count("controls_accepted", 1)
 				}
 			}
 			for gi := range sizes {
@@ -167,6 +172,19 @@ func run(c *fw.Ctx) {
 							}
 							if c.WantSample() && c.Shard == 1 {
 								c.Sample(map[string]interface{}{"target": tn, "codec": codec, "rg": gi, "column": leaf.PathKey(), "feature": f})
+							}
+							if ft.accept {
+								// negative control (a BIT_PACKED label on a column without
+								// such levels is legal): whether the reader accepts it is
+								// C04's business, here it only shows that the refusals
+								// above are not blanket refusals
+								if msg := judge(t, recs, file, true); msg != "" {
+									c.Count("controls_not_accepted", 1)
+									c.Note("control: a BIT_PACKED level-encoding label on a column without such levels is not accepted (%s)", classify(msg))
+								} else {
+									c.Count("controls_accepted", 1)
+								}
+								continue
 							}
 							if msg := judge(t, recs, file, ft.accept); msg != "" {
 								key := fmt.Sprintf("%s|%s:%d:genuine=%v|%s", columnClass(leaf), f.Kind, f.Arg, f.Genuine, classify(msg))
@@ -235,7 +253,7 @@ func Main() {
 		Level: "exploration",
 		Rule: "valid foreign base files (mini, person [+document, flat3 in thorough]; 2 row groups, 2 pages per chunk; 3 codecs) in which one chunk, at every (row group, column, page position), carries one feature out of: dictionary page + PLAIN_DICTIONARY/RLE_DICTIONARY data page (genuinely encoded), index page, data page v2 (genuinely encoded), " +
 			"value encoding in {PLAIN_DICTIONARY, RLE, BIT_PACKED, DELTA_BINARY_PACKED, DELTA_LENGTH_BYTE_ARRAY, DELTA_BYTE_ARRAY, RLE_DICTIONARY, BYTE_STREAM_SPLIT} (payload genuinely re-encoded where simple, and PLAIN bytes under the foreign label), BIT_PACKED definition/repetition levels on columns that have them (genuinely MSB-first packed), codec in {LZO, BROTLI, LZ4, ZSTD, LZ4_RAW}. " +
-			"Oracle: constructor error or Error() non-nil; never rows with nil error; no panic. Negative controls: the base files and a BIT_PACKED level-encoding label on columns without such levels must be read correctly",
+			"Oracle: constructor error or Error() non-nil; never rows with nil error; no panic. Controls (counted in the evidence, not violations of this property): the base files and a BIT_PACKED level-encoding label on columns without such levels are read correctly",
 		Assumptions: []string{
 			"one unsupported feature per file",
 			"delta encodings are not genuinely implemented by the foreign writer: their payload is the PLAIN bytes under the foreign label (the worst case for 'misread as PLAIN')",
